@@ -10,6 +10,12 @@ namespace Pike
 namespace C08
 open Sys Entry
 
+/-- Obligation on the extracted facts (store/*.go): every store constructor returns the interface type
+`Store`: "pike always starts and serves" also when the store cannot be opened after a stop or kill
+(directory still locked, unreadable) — a nil interface makes the dispatcher memory-only. -/
+theorem facts_store_constructors_return_interface :
+    Facts.storeConstructorResults.all (fun s => s = "Store") = true ∧ Facts.storeConstructorResults ≠ [] := by decide
+
 /-- FULL STATEMENT (records are genuine).  In every state reachable by any schedule with any
 kill points (`crash` may occur between ANY two atomic steps: before/during/after fetch, drain,
 save, purge), evictions and concurrent writers, every hit record in the store is the
